@@ -93,6 +93,7 @@ class Ctx:
             'known_findings_seen': [k[0] for k in self.known],
             'violations': [v[0] for v in self.violations],
             'notes': self.notes,
+            'agreements_up_to_float_drift': core.DRIFT,
         }
         if extra:
             cov.update(extra)
